@@ -154,6 +154,9 @@ func runDiscipline(s *Session, prop string, verified map[string]bool) *Disciplin
 								bad = append(bad, "formats a pointer with %p in "+f.String()+" at "+s.L.Fset.Position(in.Pos()).String())
 							}
 						}
+						for _, leak := range fmtAddressLeaks(i.Common()) {
+							bad = append(bad, leak+" in "+f.String()+" at "+s.L.Fset.Position(in.Pos()).String())
+						}
 					}
 					if zoneDependent[f.String()] {
 						// rendering / splitting a time in its location: time.Unix(..) and friends are in the machine's local zone
